@@ -70,10 +70,24 @@ def set_array_name_format(value):
     _array_name_format = value
 
 
-_any_dtype = object()
+class _Sentinel:
+    # These markers are compared by identity, so a copy must be the very same object:
+    # reduce to the module-level name. (Annotation classes are serialised by value by
+    # e.g. cloudpickle, which copies everything in their `__dict__`.)
+    def __init__(self, name):
+        self._name = name
 
-_anonymous_dim = object()
-_anonymous_variadic_dim = object()
+    def __reduce__(self):
+        return self._name
+
+    def __repr__(self):
+        return self._name
+
+
+_any_dtype = _Sentinel("_any_dtype")
+
+_anonymous_dim = _Sentinel("_anonymous_dim")
+_anonymous_variadic_dim = _Sentinel("_anonymous_variadic_dim")
 
 
 class _DimType(enum.Enum):
